@@ -4,7 +4,7 @@ from __future__ import annotations
 from ..calls import Resolver
 from ..core import Report
 from ..model import Program
-from ..quantity_rules import (check_decimal_helpers, check_gates, check_mixed_arithmetic, check_numeric_memo, check_extra_operators, check_operators, check_quantity_ctor)
+from ..quantity_rules import (check_decimal_helpers, check_gates, check_mixed_arithmetic, check_numeric_memo, check_extra_operators, check_number_hooks, check_operators, check_quantity_ctor, check_unit_with_quantity)
 
 TITLE = "Quantity operations obey dimensional analysis; incommensurables are rejected"
 
@@ -28,6 +28,13 @@ def run(rep: Report) -> None:
              "quotient / product hooks carry the quotient / product dimension", floor=1)
     n = check_operators(rep, prog, resolver, "R03.1", "R03.4", "R03.5", rid_dim="R03.1d")
     check_extra_operators(rep, prog, resolver, "R03.8")
+    rep.rule("R03.10", "a hook that turns a quantity into a bare number (__float__, __int__, __index__, __complex__) refuses every quantity that still has a dimension")
+    if check_number_hooks(rep, prog, "R03.10") == 0:
+        rep.ok("R03.10", "Quantity / Level / Measurement", note="no numeric conversion hook is defined")
+    rep.rule("R03.9", "a Unit operator that itself accepts a Quantity or a number returns the quantity dimensional analysis asks for")
+    n9 = check_unit_with_quantity(rep, prog, resolver, "R03.9")
+    if n9 == 0:
+        rep.ok("R03.9", "Unit operators", note="none accepts a Quantity or a number itself (left to Quantity's reflected operators, R03.1)")
     check_decimal_helpers(rep, prog, "R03.2")
     check_mixed_arithmetic(rep, prog, resolver, "R03.2")
     check_gates(rep, prog, "R03.3")
